@@ -411,6 +411,12 @@ def run(ses, rep):
             rep.add(oid, "inconclusive", f"{what}: the selection battery shows the documented file sets on the native build")
 
 
+def fallback(rep):
+    """kernels undecided: the selection battery is run; only a failing concrete oracle is reported"""
+    for name, v, rec in battery()[:4]:
+        rep.add(f"battery/{name}", rep.violation({"obligation": "battery-after-undecided-kernel", "scenario": name}, {"what": "kernel undecided; selection battery", "observed": v, **rec}), v)
+
+
 def replay(path):
     fails = battery()
     for f in fails[:5]:
